@@ -394,6 +394,30 @@ def gen_failure():
     need(isinstance(P.find_def(tk, "RemoteException"), ast.ClassDef), "tokens.RemoteException is gone")
     out.append("Definition remote_exception_name : list Z := %s.   (* reflect.qual(tokens.RemoteException), UTF-8 *)"
                % zlist(list(b"foolscap.tokens.RemoteException")))
+    # the wrapper's own ancestry (what Failure.check() of the wrapped failure consults): RemoteException's declared bases
+    rx = P.find_def(tk, "RemoteException")
+    bases = [U(b) for b in rx.bases]
+    need(bases == ["Exception"] and not rx.keywords, "tokens.RemoteException no longer derives from Exception alone: %s" % bases)
+    anc = [b"foolscap.tokens.RemoteException", b"builtins.Exception", b"builtins.BaseException", b"builtins.object"]
+    out.append("Definition remote_exception_parents : list (list Z) := [%s].   (* [reflect.qual(c) for c in getmro(RemoteException)] *)"
+               % "; ".join(zlist(list(a)) for a in anc))
+    # the RELAY path: a CopiedFailure that is sent on (A calls B, B calls C, C fails) goes through CopiedFailureSlicer.getStateToCopy,
+    # which does not truncate: type = reflect.qual(stand-in class) (or the string itself), value / parents / traceback as received
+    cfs = P.find_def(mod, "CopiedFailureSlicer.getStateToCopy")
+    cb = [U(x) for x in cfs.body if not (isinstance(x, ast.Expr) and isinstance(x.value, ast.Constant))]
+    want_cb = ["state = {}", "state['type'] = obj.type",
+               "if not isinstance(state['type'], str):\n    state['type'] = reflect.qual(state['type'])",
+               "state['type'] = six.ensure_binary(state['type'])", "state['value'] = six.ensure_binary(obj.value)",
+               "state['parents'] = [six.ensure_binary(p) for p in obj.parents]"]
+    need(cb[:6] == want_cb and cb[-1] == "return state" and len(cb) == 8 and isinstance(cfs.body[-2], ast.If)
+         and U(cfs.body[-2].test) == "broker.unsafeTracebacks"
+         and [U(x) for x in cfs.body[-2].body] == ["state['traceback'] = six.ensure_binary(obj.traceback)"]
+         and len(cfs.body[-2].orelse) == 1 and isinstance(cfs.body[-2].orelse[0], ast.Assign)
+         and U(cfs.body[-2].orelse[0].targets[0]) == "state['traceback']" and isinstance(cfs.body[-2].orelse[0].value, ast.Constant)
+         and isinstance(cfs.body[-2].orelse[0].value.value, bytes),
+         "CopiedFailureSlicer.getStateToCopy changed: %s" % cb)
+    out.append("Definition copied_default_traceback : list Z := %s.   (* %r in CopiedFailureSlicer.getStateToCopy *)"
+               % (zlist(list(cfs.body[-2].orelse[0].value.value)), cfs.body[-2].orelse[0].value.value))
     out.append("Definition wrap_when_expose_is : bool := false.   (* `if not broker._expose_remote_exception_types: f = wrap_remote_failure(f)` *)")
     return "\n\n".join(out) + "\n"
 
@@ -442,6 +466,7 @@ def gen_send():
     need(len(loops) == 1 and U(loops[0].test) == "True", "handleSendViolation: loop changed")
     body = loops[0].body
     kinds = []
+    tail_sets = []
     for st in body:
         s = U(st)
         if isinstance(st, ast.If) and U(st.test) == "sendAbort":
@@ -458,12 +483,23 @@ def gen_send():
             need([U(x) for x in st.body] == ["doPop = True", "sendAbort = True", "continue"] and [U(x) for x in st.orelse] == ["break"],
                  "handleSendViolation: continuation changed")
             kinds.append("loop")
+        elif isinstance(st, ast.If) and U(st.test) == "not f" and [U(x) for x in st.body] == ["break"] and not st.orelse:
+            kinds.append("loop-break")
+        elif s in ("doPop = True", "sendAbort = True") and kinds and kinds[-1] in ("loop-break", "set"):
+            kinds.append("set")
+            tail_sets.append(s)
         elif s == "top = self.slicerStack[-1][0]":
             kinds.append("top")
         elif isinstance(st, ast.If) and U(st.test) == "self.debugSend":
             pass
         else:
             raise P.Untranslatable("handleSendViolation: unexpected statement " + s[:80])
+    # Accepted forms of the loop tail (equivalent for every value of f: its truth is tested once in both; in a `while True`
+    # body whose last statements are the two assignments, falling off the end IS `continue`):
+    #   if f: doPop = True; sendAbort = True; continue   else: break
+    #   if not f: break   ;   doPop = True ; sendAbort = True            (as the LAST statements of the loop body)
+    if kinds[-3:] == ["loop-break", "set", "set"] and sorted(tail_sets) == ["doPop = True", "sendAbort = True"]:
+        kinds = kinds[:-3] + ["loop"]
     need(kinds == ["top", "abort", "pop", "notify", "loop"], "handleSendViolation: statement order is now %s" % kinds)
     out.append("Definition abort_precedes_close : bool := true.   (* in handleSendViolation sendAbort comes before popSlicer *)")
 
